@@ -121,6 +121,31 @@ fn reference_verdict(world_pkg: &[u8], output: &[u8]) -> Result<bool, String> {
     Ok(n.component_is_subtype_of(1, &world_entity))
 }
 
+/// Does `name` of interface `iface` denote a resource, directly or through `type a = b` aliases
+/// and `use` edges?
+fn names_a_resource(pkgs: &[witgen::Pkg], iface: &str, name: &str) -> bool {
+    let (mut cur, mut cur_name) = (iface.to_string(), name.to_string());
+    for _ in 0..20 {
+        let Some(si) = witgen::find_iface(pkgs, &cur) else { return false };
+        if let Some((_, def)) = si.types.iter().find(|(n, _)| *n == cur_name) {
+            match def {
+                witgen::TypeDef::Resource { .. } => return true,
+                witgen::TypeDef::Alias(Ty::Named(n)) => cur_name = n.clone(),
+                _ => return false,
+            }
+        } else if let Some(x) = si.uses.iter().find(|x| x.as_name.as_deref().unwrap_or(&x.name) == cur_name) {
+            if x.is_resource {
+                return true;
+            }
+            cur = x.source_id.clone();
+            cur_name = x.name.clone();
+        } else {
+            return false;
+        }
+    }
+    false
+}
+
 /// Second workload: two instantiations implicitly import the same plain name with different,
 /// mergeable instance types; the target world offers the union, or only what one of them needs.
 /// The merged import of the output needs the union, so anything less must be rejected whatever the
@@ -554,7 +579,7 @@ pub fn run(ctx: &mut Ctx) {
         // ... and for an exported interface that `use`s a resource of another interface: in the output
         // the resource is named after whichever export comes first
         let zone_c = with_resources && world.exports.iter().filter(|e| e.is_instance()).any(|e| {
-            witgen::find_iface(&pkgs, e.extern_name()).map_or(false, |i| i.uses.iter().any(|u| u.is_resource))
+            witgen::find_iface(&pkgs, e.extern_name()).map_or(false, |i| i.uses.iter().any(|u| u.is_resource || names_a_resource(&pkgs, &u.source_id, &u.name)))
         });
         let zsuf = if zone {
             ":interface-with-a-resource-both-imported-and-exported"
